@@ -25,6 +25,7 @@ func checkC11(c *Ctx) {
 	c.Rule("C11/R6", "the legacy wrappers return every test error (converted) with p = -1 and the test's own P otherwise")
 
 	p := mustLoad(c, loadOpts{}, "./internal/stats", "./benchstat")
+	p.Funcs("internal/stats", "benchstat")
 	fn := p.Fn("internal/stats", "MannWhitneyUTest")
 	if fn == nil {
 		c.Undecided("C11/R1", "anchor:MannWhitneyUTest", "", "not found")
